@@ -86,6 +86,7 @@ class Fuzzer:
         self.token_n = 0
         self.fail_next_schedule_db = False
         self.early_job_started = 0
+        self.worker_posts = []
         self.intended_parents = {}
         self.legacy_parent_keys = 0
         self.early_job_complete = 0
@@ -118,6 +119,18 @@ class Fuzzer:
                 body = kw.get('json') or {}
                 ip = url.split('//')[1].split(':')[0]
                 inst = next((i for i in self.w.instances.values() if i.ip_address == ip), None)
+                # what the driver hands to a worker, judged at the moment of the hand-over (before the SQL gate): the job's
+                # cancellation marks as committed right now
+                try:
+                    from vf.world.oracles import View as _View
+
+                    _v = _View(self.w.engine)
+                    _j = _v.jobs.get((body['batch_id'], body['job_id']))
+                    if _j is not None:
+                        self.worker_posts.append({'job': [body['batch_id'], body['job_id']], 'attempt_id': body['job_spec']['attempt_id'], 'always_run': bool(_j['always_run']),
+                                                  'marked_cancelled': bool(_v.marked_cancelled(_j)), 'cancelled_flag': bool(_j['cancelled']), 'committed': bool(_v.committed(_j)), 'state': _j['state'], 'during': self.current})
+                except Exception:  # observation only
+                    pass
                 if self.rng.random() < self.cfg['worker_reject_p']:
                     import aiohttp
 
